@@ -131,7 +131,10 @@ class Engine(GenericConcreteEngine[Callable[..., Any]]):
                     return tree, commutator.done, commutator.messages
                 else:
                     upstream, done, messages = self.backtrack_unary(commutator.first, target, preferred)
-                    if upstream is not target:
+                    if upstream is not target or (done and commutator.second is not tree.operation):
+                        # Rebuild this node when something was inserted
+                        # upstream, or when the insertion was a no-op but the
+                        # commutation replaced this node's operation.
                         result = commutator.second._finish_apply(upstream)
                     else:
                         result = tree
